@@ -7,6 +7,7 @@ import Vise.Driver.Codec
 import Vise.Driver.Cache
 import Vise.Driver.Render
 import Vise.Driver.Engine
+import Vise.Driver.Db
 
 open Vise.Driver
 
@@ -18,6 +19,7 @@ def main (args : List String) : IO UInt32 := do
   | ["cache"] => loop stdin stdout () cacheStep; return 0
   | ["render"] => loop stdin stdout () renderStep; return 0
   | ["engine"] => loop stdin stdout () engineStep; return 0
+  | ["db"] => loop stdin stdout () dbStep; return 0
   | _ =>
     IO.eprintln "usage: visemodel <suite>"
     return 2
